@@ -442,19 +442,12 @@ impl RdbEngine {
                 
                 // Write each key-value pair
                 for key in keys {
-                    // Get value
-                    match storage.get(db_idx, &key)? {
-                        GetResult::Found(value) => {
-                            // Get TTL if any
-                            let ttl = storage.ttl(db_idx, &key)?;
-                            
-                            // Write key-value pair
-                            writer.write_key_value(&key, &value, ttl)?;
-                        }
-                        _ => {
-                            // Key doesn't exist or expired, skip
-                        }
+                    // Value and TTL from one instant (one lock acquisition): read separately, a
+                    // command running in between gave the value of one state the TTL of another
+                    if let Some((value, ttl)) = storage.get_with_ttl(db_idx, &key)? {
+                        writer.write_key_value(&key, &value, ttl)?;
                     }
+                    // otherwise the key doesn't exist (any more) or is expired: skip
                 }
             }
         }
